@@ -155,6 +155,21 @@ pub fn replay(case: &Value) -> Result<String, String> {
             let bytes = front::build(front_from(case["front"].as_str().unwrap()), geom_from(&case["geom"]), &kvs)?;
             trailer_ok(&bytes).map(|_| "trailer is the reference checksum".into())
         }
+        "sinkpolicy" => {
+            use crate::sink::{Policy, ScriptSink};
+            let kvs = kvs_from(&case["kvs"]);
+            let mut n = 0;
+            for c in 1..=16 {
+                let mut b = fst::raw::Builder::new(ScriptSink::new(vec![], Policy::Cap(c))).map_err(|e| format!("{:?}", e))?;
+                for (k, v) in &kvs {
+                    b.insert(k, *v).map_err(|e| format!("{:?}", e))?;
+                }
+                let sink = b.into_inner().map_err(|e| format!("{:?}", e))?;
+                trailer_ok(&sink.data).map_err(|e| format!("cap {}: {}", c, e))?;
+                n += 1;
+            }
+            Ok(format!("{} capped sinks give the reference checksum", n))
+        }
         "ladder" => {
             let l = case["len"].as_u64().unwrap() as usize;
             let bytes = front::build(Front::RawInsert, (1, 1), &[(vec![b'a'; l], 1)])?;
@@ -173,7 +188,7 @@ pub fn plan(tier: Tier) -> Plan {
     p.rule = "(a) every single-byte mutant (every position x all 255 other values) and every 2-4 byte burst (xor masks {01,80,ff} per byte) of every FST built from subsets of U_ab3 with <= 3 keys (thorough: <= 5) plus fan-out FSTs: 'opens and verify()==Ok' is the violation; (b) the trailing 4 bytes of every builder output (all subsets of U_ab3/U_abc2/U_raw2 x patterns, fan-out families, single-key ladders giving every file length 37..4150) equal an independent bitwise masked CRC-32C; (c) through hook H3 every 2-cut and 3-cut of buffers of length 0..64 (3 contents) and cuts at 0,1,15,16,17,31,32,33 from either end for lengths up to 4096; non-trivial = mutants + chunkings with >= 2 non-empty chunks".into();
     p.assumptions = vec![
         "independent reference: bit-by-bit reflected CRC-32C (0x82F63B78), validated on the RFC 3720 vector, rotate-right-15 + 0xA282EAD8 mask".into(),
-        "chunking by a sink that accepts prefixes is covered by C07's schedule space".into(),
+        "chunking by a sink: policy sinks (cap 1..16, Interrupted before every call) here; the full answer-schedule space is C07's".into(),
     ];
     // (a) mutants
     {
@@ -260,6 +275,35 @@ pub fn plan(tier: Tier) -> Plan {
             }
         }));
     }
+    // (d) chunking by the sink: every cap 1..16 and Interrupted-before-every-call
+    // sink (the full schedule space is C07's); the bytes the sink ends up with
+    // must carry the reference checksum and verify
+    p.units.push(unit("sink-chunking-policies", "sink policies".into(), move |st, rep| {
+        use crate::sink::{Policy, ScriptSink};
+        for (name, kvs) in super::c07::inputs() {
+            let mut pols: Vec<Policy> = (1..=16).map(Policy::Cap).collect();
+            pols.push(Policy::InterruptEach);
+            pols.push(Policy::CapInterrupt(1));
+            for pol in pols {
+                st.evals += 1;
+                st.states += 1;
+                st.nontrivial += 1;
+                st.count("sink_policy_runs", 1);
+                let r = guard(|| {
+                    let mut b = fst::raw::Builder::new(ScriptSink::new(vec![], pol)).map_err(|e| format!("{:?}", e))?;
+                    for (k, v) in &kvs {
+                        b.insert(k, *v).map_err(|e| format!("{:?}", e))?;
+                    }
+                    let sink = b.into_inner().map_err(|e| format!("{:?}", e))?;
+                    trailer_ok(&sink.data)
+                })
+                .and_then(|x| x);
+                if let Err(msg) = r {
+                    rep.violation(format!("sink policy {} {:?}", name, pol), format!("bytes written through a {:?} sink: {}", pol, msg), json!({"kind": "sinkpolicy", "kvs": kvs_json(&kvs)}));
+                }
+            }
+        }
+    }));
     // (c) chunkings
     for kind in 0..3usize {
         p.units.push(unit("chunkings-len-0..64-all-cuts", format!("chunkings small kind {}", kind), move |st, rep| {
@@ -286,6 +330,6 @@ pub fn plan(tier: Tier) -> Plan {
             }));
         }
     }
-    p.must_be_nonzero = vec!["mutants".into(), "chunkings".into(), "ladder_files".into()];
+    p.must_be_nonzero = vec!["sink_policy_runs".into(), "mutants".into(), "chunkings".into(), "ladder_files".into()];
     p
 }
